@@ -18,8 +18,8 @@
 (* TLC has neither floats nor 64-bit integers:                             *)
 (*   Node  [ty, f: <<[n, v: Value]>>, a: <<Entry>>, c: <<Node>>]           *)
 (*   Entry [key: "s:<hex>", kn: byte length, v: Value]                     *)
-(*   Value [k, v, n, e]  k in s x i d b u id: leaf (v tagged, n length)    *)
-(*                       k = "L": e = <<Value>>;  k = "M": e = <<Entry>>   *)
+(*   Value [k, v, n]  k in s x i d b u id: a leaf (v tagged, n length)     *)
+(*         [k, e]     k = "L": e = <<Value>>;  k = "M": e = <<Entry>>      *)
 (*                                                                         *)
 (* Clauses (what the property states, and not more):                       *)
 (*   SameShape            same containers in the same order, same number   *)
@@ -59,15 +59,19 @@ VARIABLES
   subst,    \* set of <<original, substitute>> learned so far (tagged strings)
   plain,    \* targeted originals (>= 4 bytes) this instance left unchanged
   viol,     \* set of <<instance, "C17", clause, seq>>
-  detail    \* a few <<seq, clause, item>> for the human reader
+  detail,   \* a few <<seq, clause, item>> for the human reader
+  pend      \* the comparison of the current Process event (a call is judged in two steps:
+            \* compare the trees, then judge the differences -- TLC evaluates each part once)
 
-vars == <<i, cfg, subst, plain, viol, detail>>
+vars == <<i, cfg, subst, plain, viol, detail, pend>>
+NotYet == [ready |-> FALSE, items |-> {}]
 
 Init ==
   /\ i = 1
   /\ cfg = [mode |-> "all", listed |-> <<>>, tr |-> 0]
   /\ subst = {} /\ plain = {}
   /\ viol = {} /\ detail = {}
+  /\ pend = NotYet
 
 SeqSet(s) == {s[j] : j \in DOMAIN s}
 ModeAll == cfg.mode = "all"
@@ -99,18 +103,25 @@ FieldSt(name) == IF ModeAll \/ name \in NameLike THEN "E" ELSE "K"
 Leaf(kind, pol, a, b, na, nb) == [c |-> "leaf", kind |-> kind, pol |-> pol, a |-> a, b |-> b, na |-> na, nb |-> nb]
 Shape(where, what, na, nb)    == [c |-> "shape", kind |-> what, pol |-> "", a |-> where, b |-> "", na |-> na, nb |-> nb]
 
+\* An unchanged value that no configuration targets ("fixed", "keep") or need not target ("either")
+\* says nothing: it yields no item.  A targeted leaf always yields one (the identity is learned).
+Quiet(st) == st \in {"E", "K", "U", "X"}
+
 RECURSIVE ValItems(_, _, _, _), MapItems(_, _, _, _)
 ValItems(x, y, st, where) ==
-  IF x.k # y.k THEN {Shape(where, "value kind " \o x.k \o " became " \o y.k, 0, 0)}
+  IF Quiet(st) /\ x = y THEN {}
+  ELSE IF x.k # y.k THEN {Shape(where, "value kind " \o x.k \o " became " \o y.k, 0, 0)}
   ELSE IF x.k = "L" THEN
     IF Len(x.e) # Len(y.e) THEN {Shape(where, "slice length", Len(x.e), Len(y.e))}
     ELSE UNION {ValItems(x.e[j], y.e[j], st, where) : j \in DOMAIN x.e}
   ELSE IF x.k = "M" THEN MapItems(x.e, y.e, st, where)
+  ELSE IF x.v = y.v /\ Pol(st, x.k) # "must" THEN {}
   ELSE {Leaf(x.k, Pol(st, x.k), x.v, y.v, x.n, y.n)}
 
 MapItems(xs, ys, st, where) ==
   IF Len(xs) # Len(ys) THEN {Shape(where, "number of attributes", Len(xs), Len(ys))}
-  ELSE UNION {  {Leaf("s", "either", xs[j].key, ys[j].key, xs[j].kn, ys[j].kn)}
+  ELSE UNION {  (IF xs[j].key = ys[j].key THEN {}
+                 ELSE {Leaf("s", "either", xs[j].key, ys[j].key, xs[j].kn, ys[j].kn)})
                 \cup ValItems(xs[j].v, ys[j].v, NextSt(st, xs[j].key), where)
               : j \in DOMAIN xs}
 
@@ -141,7 +152,7 @@ OnProcess(ev) ==
     /\ viol' = viol \cup {V(IF ev.outcome = "panic" THEN "NoPanic" ELSE "NoOutput", ev)}
     /\ UNCHANGED <<cfg, subst, plain, detail>>
   ELSE
-  LET items   == NodeItems(ev.in, ev.out)
+  LET items   == pend.items
       leaves  == {x \in items : x.c = "leaf"}
       strs    == {x \in leaves : x.kind \in {"s", "x"}}
       bShape  == {x \in items : x.c = "shape"}
@@ -153,8 +164,14 @@ OnProcess(ev) ==
       \* for targeted strings that were left as they are
       new     == {<<x.a, x.b>> : x \in repl} \cup {<<x.a, x.b>> : x \in {y \in strs : y.pol = "must"}}
       all     == subst \cup new
-      bFun    == {p \in new : \E q \in all : q[1] = p[1] /\ q[2] # p[2]}
-      bInj    == {p \in new : \E q \in all : q[2] = p[2] /\ q[1] # p[1]}
+      \* a set of pairs is a function iff it has as many first components as pairs (an injection:
+      \* second components); a clause is reported when a call adds a conflict
+      FunDef(S) == Cardinality(S) - Cardinality({q[1] : q \in S})
+      InjDef(S) == Cardinality(S) - Cardinality({q[2] : q \in S})
+      bFun    == IF FunDef(all) > FunDef(subst)
+                 THEN {p \in new : \E q \in all : q[1] = p[1] /\ q[2] # p[2]} ELSE {}
+      bInj    == IF InjDef(all) > InjDef(subst)
+                 THEN {p \in new : \E q \in all : q[2] = p[2] /\ q[1] # p[1]} ELSE {}
       same    == {x.a : x \in {y \in strs : y.pol = "must" /\ y.a = y.b /\ y.na >= 4}}
       bPlain  == IF same \ plain # {} /\ Cardinality(plain \cup same) >= 2 THEN same ELSE {}
       found   == (IF bShape # {} THEN {"SameShape"} ELSE {})
@@ -180,16 +197,22 @@ OnProcess(ev) ==
 
 Skip == UNCHANGED <<cfg, subst, plain, viol, detail>>
 
+Compare(ev) ==
+  /\ pend' = [ready |-> TRUE, items |-> NodeItems(ev.in, ev.out)]
+  /\ UNCHANGED <<i, cfg, subst, plain, viol, detail>>
+
 Next ==
   /\ i <= Len(Trace)
-  /\ i' = i + 1
   /\ LET ev == Trace[i] IN
-       CASE ev.ev = "Begin" -> OnBegin(ev)
-         [] ev.ev = "Process" -> OnProcess(ev)
-         [] OTHER -> Skip
+       IF ev.ev = "Process" /\ ev.outcome = "ok" /\ ~pend.ready THEN Compare(ev)
+       ELSE /\ i' = i + 1
+            /\ pend' = NotYet
+            /\ CASE ev.ev = "Begin" -> OnBegin(ev)
+                 [] ev.ev = "Process" -> OnProcess(ev)
+                 [] OTHER -> Skip
 
 Spec == Init /\ [][Next]_vars
 
 \* evaluated in every state; prints the verdict in the last one
-Report == i <= Len(Trace) \/ PrintT(<<"OBFOBS-RESULT", Len(Trace), ToJson(viol), ToJson(detail)>>)
+Report == i <= Len(Trace) \/ PrintT("OBFOBS-RESULT " \o ToJson([n |-> Len(Trace), viol |-> viol, detail |-> detail]))
 =============================================================================
